@@ -34,6 +34,8 @@ PENDING = {
  "C20": "engine C (full stack over simulated UDP) not built yet in this revision",
 }
 # engines B and C register themselves here once they exist
+import sys
+sys.path.insert(0, os.path.dirname(os.path.abspath(__file__)))
 try:
     from manifest_extra import CLAIMED_EXTRA, PENDING_DROP
     CLAIMED.update(CLAIMED_EXTRA)
